@@ -33,6 +33,27 @@ Theorem C03_inplace_array_write_is_observable :
 Proof. exact inplace_array_write_is_observable. Qed.
 Print Assumptions C03_inplace_array_write_is_observable.
 
+(* (c) The broadcasting binary operators (add, sub, mul, truediv, pow): for every number of
+   labels to add on either side, every object write of the modelled operator
+   body goes to a private copy, hence both operands (and whatever shares their
+   arrays) are observably unchanged. *)
+Theorem C03_binop_writes_only_copies : forall nl nr, forallb is_fresh (binop_writes nl nr) = true.
+Proof. exact binop_writes_fresh. Qed.
+Print Assumptions C03_binop_writes_only_copies.
+
+Theorem C03_binop_leaves_operands_unchanged : forall h a b fa fb payload nl nr,
+  fa <> a -> fa <> b -> fb <> a -> fb <> b ->
+  fingerprint (run h (binop_body a b fa fb payload (binop_writes nl nr))) [a; b] = fingerprint h [a; b].
+Proof. exact binop_leaves_operands_unchanged. Qed.
+Print Assumptions C03_binop_leaves_operands_unchanged.
+
+(* ... and the flag reset between the two loops is what the theorem rests on:
+   the same body without it writes the caller's right operand. *)
+Theorem C03_binop_without_reset_writes_operand :
+  exists nl nr, existsb (tgt_eqb TOther) (binop_writes_gen false nl nr) = true.
+Proof. exact binop_without_reset_writes_operand. Qed.
+Print Assumptions C03_binop_without_reset_writes_operand.
+
 Example C03_transpose_example :
   transpose_data [1; 0] [2; 3] [(1,0); (2,0); (3,0); (4,0); (5,0); (6,0)]%Z
   = [(1,0); (4,0); (2,0); (5,0); (3,0); (6,0)]%Z.
